@@ -21,10 +21,85 @@ thread's trace function (coverage, debuggers) is never touched.
 """
 import sys
 import threading
+import time
 
 
 class Stuck(Exception):
     pass
+
+
+_REG = {}  # thread ident -> (_Run, thread index) for the worker threads of the run in progress
+_LOCK_TYPES = (type(threading.Lock()), type(threading.RLock()))
+
+
+class CoopLock:
+    """A re-entrant lock that co-operates with the scheduler.
+
+    The code under test may guard its bookkeeping with a `threading.Lock` / `RLock` held in a
+    closure cell.  A real lock would park a scheduled thread inside `acquire` (a C call, no
+    line event): the controller would time out.  `coop_locks(fn)` replaces such a lock by a
+    CoopLock with the same interface: a scheduled thread that finds it taken tells the
+    controller it is *blocked* and hands control back; the controller offers a blocked thread
+    for scheduling again only once the lock is free, and the thread then retries.  The line
+    the thread is stopped at stays the `with lock:` line, so a blocked attempt appears in the
+    trace as one (ineffective) execution of that line.  Outside a scheduled run (sequential
+    phases, aborted runs) it behaves as an ordinary re-entrant lock.
+    """
+
+    def __init__(self):
+        self._g = threading.Lock()
+        self.owner = None
+        self.count = 0
+
+    def _try(self, me):
+        with self._g:
+            if self.owner is None or self.owner == me:
+                self.owner = me
+                self.count += 1
+                return True
+        return False
+
+    def acquire(self, blocking=True, timeout=-1):
+        me = threading.get_ident()
+        while not self._try(me):
+            if not blocking:
+                return False
+            ctx = _REG.get(me)
+            if ctx is None or ctx[0].free:
+                time.sleep(0.0005)
+            else:
+                ctx[0].block(ctx[1], self)
+        return True
+
+    def release(self):
+        with self._g:
+            if self.owner != threading.get_ident():
+                raise RuntimeError("cannot release un-acquired lock")
+            self.count -= 1
+            if self.count == 0:
+                self.owner = None
+
+    def locked(self):
+        return self.owner is not None
+
+    __enter__ = acquire
+
+    def __exit__(self, *a):
+        self.release()
+
+
+def coop_locks(fn):
+    """Replace every lock held in a closure cell of `fn` by a CoopLock; returns how many."""
+    n = 0
+    for cell in getattr(fn, "__closure__", None) or ():
+        try:
+            v = cell.cell_contents
+        except ValueError:
+            continue
+        if isinstance(v, _LOCK_TYPES):
+            cell.cell_contents = CoopLock()
+            n += 1
+    return n
 
 
 def _locked():
@@ -47,7 +122,8 @@ class _Run:
         self.timeout = timeout
         self.ctrl = _locked()
         self.sems = []
-        self.state = []  # 'new' | 'paused' | 'running' | 'done'
+        self.state = []  # 'new' | 'paused' | 'running' | 'blocked' | 'done'
+        self.waiting = {}  # thread index -> the CoopLock it is blocked on
         self.line = []  # line number each thread is stopped at
         self.depth = []  # nesting depth inside target code (only depth 1 is scheduled)
         self.outcomes = []
@@ -58,6 +134,16 @@ class _Run:
             return
         self.line[i] = lineno
         self.state[i] = "paused"
+        _release(self.ctrl)
+        if not self.sems[i].acquire(True, self.timeout * 4):
+            self.free = True
+            return
+        self.state[i] = "running"
+
+    def block(self, i, lock):
+        """Thread i found `lock` taken: hand control back until it is scheduled again."""
+        self.waiting[i] = lock
+        self.state[i] = "blocked"
         _release(self.ctrl)
         if not self.sems[i].acquire(True, self.timeout * 4):
             self.free = True
@@ -82,6 +168,7 @@ class _Run:
 
     def worker(self, i, thunk):
         sys.settrace(self.tracer_for(i))
+        _REG[threading.get_ident()] = (self, i)
         try:
             try:
                 out = ("ok", thunk())
@@ -89,6 +176,7 @@ class _Run:
                 out = ("err", type(e).__name__, str(e)[:80])
         finally:
             sys.settrace(None)
+            _REG.pop(threading.get_ident(), None)
         self.outcomes[i] = out
         self.state[i] = "done"
         if not self.free:
@@ -128,8 +216,12 @@ def run(thunks, prefix, codes, timeout=5.0, between=None, policy=None):
             wait_ctrl()
         step = 0
         while True:
-            alive = [i for i in range(n) if r.state[i] == "paused"]
+            # a thread blocked on a lock can be scheduled again once the lock is free
+            alive = [i for i in range(n) if r.state[i] == "paused"
+                     or (r.state[i] == "blocked" and r.waiting[i].owner is None)]
             if not alive:
+                if any(st == "blocked" for st in r.state):
+                    res["stuck"] = True  # deadlock: every remaining thread waits for a lock
                 break
             if step < len(prefix):
                 t = prefix[step]
